@@ -1,5 +1,5 @@
-(* C03 — proofs about the NodePoolState model (part A) and the static protocol (part A').
-   The limit arithmetic (part B) is in C03/Proofs2.v. *)
+(* C03 — proofs about the NodePoolState model (part A). The static protocol (part A') is in
+   C03/Proofs1.v, the limit arithmetic (part B) in C03/Proofs2.v, the oracle equivalences in C03/Proofs3.v. *)
 From KV Require Import C03.Model.
 Open Scope Z_scope.
 
